@@ -26,7 +26,14 @@ impl EmmyLuaEmitter {
 
     /// Write a doc comment line: `--- text`.
     pub fn write_doc_comment(&mut self, text: &str) {
-        for line in doc_comment_lines(text) {
+        for line in doc_comment_lines(text, false) {
+            let _ = writeln!(self.output, "--- {}", line);
+        }
+    }
+
+    /// Write the description of a field: doc comment lines that directly follow a tag line.
+    fn write_field_comment(&mut self, text: &str) {
+        for line in doc_comment_lines(text, true) {
             let _ = writeln!(self.output, "--- {}", line);
         }
     }
@@ -58,7 +65,7 @@ impl EmmyLuaEmitter {
     pub fn write_field(&mut self, name: &str, ty: &str, description: Option<&str>) {
         // Emit description above the field
         if let Some(desc) = description {
-            self.write_doc_comment(desc);
+            self.write_field_comment(desc);
         }
 
         // Use ["name"] form for field names with special characters
@@ -74,7 +81,7 @@ impl EmmyLuaEmitter {
     /// Write an index signature `---@field [key_type] value_type`.
     pub fn write_index_field(&mut self, key_ty: &str, value_ty: &str, description: Option<&str>) {
         if let Some(desc) = description {
-            self.write_doc_comment(desc);
+            self.write_field_comment(desc);
         }
         let _ = writeln!(self.output, "---@field [{}] {}", key_ty, value_ty);
     }
@@ -169,17 +176,27 @@ pub fn sanitize_type_name(name: &str) -> String {
 
 /// Split a description into the lines of a `--- ` comment block: no line break or other control
 /// character survives inside a line, and a line never starts a doc tag.
-fn doc_comment_lines(text: &str) -> Vec<String> {
+///
+/// `after_tag` says that the block directly follows a tag line (`---@class`, `---@field`): the doc
+/// parser still reads the first non-blank line of such a block in the syntax of that tag, so a
+/// start that would continue the tag's name or type (`<`, `[`, `-`, `in`, ...) is escaped too.
+fn doc_comment_lines(text: &str, after_tag: bool) -> Vec<String> {
     let mut lines = Vec::new();
+    let mut guard = after_tag;
     for line in text.lines() {
         for piece in line.split('\r') {
             let mut cleaned: String = piece
                 .chars()
                 .map(|c| if c.is_control() && c != '\t' { ' ' } else { c })
                 .collect();
-            if cleaned.trim_start_matches([' ', '\t']).starts_with('@') {
-                let at = cleaned.find('@').unwrap_or(0);
-                cleaned.insert(at, '\\');
+            let rest = cleaned.trim_start_matches([' ', '\t']);
+            let start = cleaned.len() - rest.len();
+            let blank = rest.is_empty();
+            if rest.starts_with('@') || (guard && continues_tag(rest)) {
+                cleaned.insert(start, '\\');
+            }
+            if !blank {
+                guard = false;
             }
             lines.push(cleaned);
         }
@@ -187,9 +204,26 @@ fn doc_comment_lines(text: &str) -> Vec<String> {
     lines
 }
 
+/// Would `rest`, read right after a complete `---@class Name` or `---@field name type`, be taken
+/// as a continuation of that tag (generic parameters, array / index suffix, parent list, a binary
+/// or postfix type operator, a string literal running on over the following lines)?
+fn continues_tag(rest: &str) -> bool {
+    if rest.starts_with(['<', '[', ':', '&', '|', '+', '-', '?', '.', '"', '\'']) {
+        return true;
+    }
+    ["in", "extends"].iter().any(|keyword| {
+        rest.strip_prefix(keyword).is_some_and(|after| {
+            !after
+                .chars()
+                .next()
+                .is_some_and(|c| c.is_ascii_alphanumeric() || c == '_')
+        })
+    })
+}
+
 /// A description squeezed onto one line (for `# description` suffixes).
 fn single_line(text: &str) -> String {
-    doc_comment_lines(text).join(" ")
+    doc_comment_lines(text, false).join(" ")
 }
 
 /// Check if a field name needs bracket notation (contains special characters).
